@@ -674,7 +674,7 @@ class Plucker(SMUserList):
         l1 = self
         if l1 | l2:
             # lines are parallel
-            l = np.cross(l1.w, l1.v - l2.v * np.dot(l1.w, l2.w) / dot(l2.w, l2.w)) / np.linalg.norm(l1.w)
+            l = np.linalg.norm(np.cross(l1.w, l1.v - l2.v * np.dot(l1.w, l2.w) / np.dot(l2.w, l2.w))) / np.dot(l1.w, l1.w)
         else:
             # lines are not parallel
             if abs(l1 * l2) < 10*_eps:
